@@ -4,6 +4,7 @@ import (
 	"bytes"
 	"context"
 	"fmt"
+	"io"
 	"log"
 	"os"
 	"sync/atomic"
@@ -73,3 +74,26 @@ func Protect(f func()) (panicked string) {
 	f()
 	return ""
 }
+
+// CountingTrace is a lime.TraceWriter that swallows what is traced and counts the bytes of each direction.
+type CountingTrace struct {
+	s, r     io.Writer
+	Sent     *int64
+	Received *int64
+}
+
+type countWriter struct{ n *int64 }
+
+func (w countWriter) Write(p []byte) (int, error) {
+	atomic.AddInt64(w.n, int64(len(p)))
+	return len(p), nil
+}
+
+func NewCountingTrace() *CountingTrace {
+	t := &CountingTrace{Sent: new(int64), Received: new(int64)}
+	t.s, t.r = countWriter{t.Sent}, countWriter{t.Received}
+	return t
+}
+
+func (t *CountingTrace) SendWriter() *io.Writer    { return &t.s }
+func (t *CountingTrace) ReceiveWriter() *io.Writer { return &t.r }
